@@ -38,7 +38,7 @@ def build_result(case, overflow=False):
     D = [np.arange(int(k), dtype=np.int64) for k in navg]
     L = np.full(nf, 4, dtype=np.int64)
     d = {
-        "f": f, "r": np.full(nf, fs / 4.0), "b": f * 4.0 / fs, "L": L, "K": navg.copy(), "navg": navg, "D": D,
+        "f": f, "r": np.full(nf, fs / 4.0), "b": f * 4.0 / fs, "L": L, "K": navg + 3, "navg": navg, "D": D,      # K deliberately differs from navg: every formula is a function of the reported navg
         "O": np.zeros(nf), "XX": np.array([rat(b["xx"]) for b in bins]),
         "YY": np.array([rat(b["yy"]) for b in bins]),
         "XY": np.array([cplx(b["xy"], b["s2"]) for b in bins]),
@@ -152,8 +152,9 @@ def measure_checks(res, case, step, only):
     for name, pairs in meas.items():
         if only is not None and name != only:
             continue
-        # build_result stores the same integers in K and navg: both columns must interpolate alike
+        # build_result stores navg + 3 in K: both integer columns must interpolate alike
         for attr in ((name, "K") if name == "navg" else (name,)):
+            off = 3.0 if attr == "K" else 0.0
             for q, exp in pairs:
                 qf = rat(q)
                 try:
@@ -165,7 +166,7 @@ def measure_checks(res, case, step, only):
                 if isinstance(got, np.ndarray):
                     probs.append((f"step{step}:measure", attr, -1, "scalar query returned array", ""))
                     continue
-                e = rat(exp["v"]) if exp["k"] == "real" else cplx(exp["v"], case["bins"][0]["s2"])
+                e = (rat(exp["v"]) if exp["k"] == "real" else cplx(exp["v"], case["bins"][0]["s2"])) + off
                 if not (abs(got - e) <= REL * max(1.0, abs(e))):
                     probs.append((f"step{step}:measure", attr, -1, f"value at f={qf}: {got!r}", f"expected {e!r}"))
             qs = np.array([rat(q) for q, _ in pairs])
@@ -174,7 +175,7 @@ def measure_checks(res, case, step, only):
                 if not (isinstance(got, np.ndarray) and got.shape == qs.shape):
                     probs.append((f"step{step}:measure", attr, -1, "array query shape", repr(got)))
                 else:
-                    ex = np.array([rat(e["v"]) if e["k"] == "real" else cplx(e["v"], case["bins"][0]["s2"]) for _, e in pairs])
+                    ex = np.array([rat(e["v"]) if e["k"] == "real" else cplx(e["v"], case["bins"][0]["s2"]) for _, e in pairs]) + off
                     if not np.all(np.abs(got - ex) <= REL * np.maximum(1.0, np.abs(ex))):
                         probs.append((f"step{step}:measure", attr, -1, f"array query values {got!r}", f"expected {ex!r}"))
     return probs
